@@ -1051,39 +1051,46 @@ def probes(rng, tier):
             g = vec(rng, n, lo=-6, hi=6)
             Xc = sp.code
             vec_ok = kind in ('l1', 'l2sq', 'ccl2sq')
-            if kind == 'l1':
-                fc = '(lambda X: (%r * S.L1Norm(X)).translated(unflatten(X, %r)))(%s)' % (lam, g, Xc)
-                pc = '(lambda X: %s.proximal_l1(X, %r, unflatten(X, %r)))(X)' % (P, lam, g)
-            elif kind == 'l2':
-                fc = '(lambda X: (%r * S.L2Norm(X)).translated(unflatten(X, %r)))(%s)' % (lam, g, Xc)
-                pc = '(lambda X: %s.proximal_l2(X, %r, unflatten(X, %r)))(X)' % (P, lam, g)
-            elif kind == 'l2sq':
-                fc = '(lambda X: (%r * S.L2NormSquared(X)).translated(unflatten(X, %r)))(%s)' % (lam, g, Xc)
-                pc = '(lambda X: %s.proximal_l2_squared(X, %r, unflatten(X, %r)))(X)' % (P, lam, g)
-            elif kind == 'ccl1':
-                fc = ('(lambda X: S.FunctionalQuadraticPerturb(S.IndicatorBox(X, %r, %r), linear_term=unflatten(X, %r)))(%s)'
-                      % (-lam, lam, g, Xc))
-                pc = '(lambda X: %s.proximal_convex_conj_l1(X, %r, unflatten(X, %r)))(X)' % (P, lam, g)
-            elif kind == 'ccl2':
-                fc = ('(lambda X: S.FunctionalQuadraticPerturb(S.FunctionalRightScalarMult(S.IndicatorLpUnitBall(X, 2), %r), '
-                      'linear_term=unflatten(X, %r)))(%s)' % (1.0 / lam, g, Xc))
-                pc = '(lambda X: %s.proximal_convex_conj_l2(X, %r, unflatten(X, %r)))(X)' % (P, lam, g)
-            elif kind == 'ccl2sq':
-                fc = ('(lambda X: S.FunctionalQuadraticPerturb(%r * S.L2NormSquared(X), linear_term=unflatten(X, %r)))(%s)'
-                      % (0.25 / lam, g, Xc))
-                pc = '(lambda X: %s.proximal_convex_conj_l2_squared(X, %r, unflatten(X, %r)))(X)' % (P, lam, g)
-            elif kind in ('l1l2', 'ccl1l2'):
+            nog = rng.random() < 0.35          # the g=None branches of the factories
+            garg = 'None' if nog else 'unflatten(X, %r)' % (g,)
+            tr = (lambda f: f) if nog else (lambda f: '(%s).translated(unflatten(X, %r))' % (f, g))
+            lt = 'None' if nog else 'unflatten(X, %r)' % (g,)
+            if kind in ('l1l2', 'ccl1l2'):
                 d = rng.choice([2, 3])
                 Xc = 'odl.ProductSpace(%s, %d)' % (sp.code, d)
                 g = vec(rng, n * d, lo=-6, hi=6)
                 n = n * d
-                if kind == 'l1l2':
-                    fc = '(lambda X: (%r * S.GroupL1Norm(X, 2)).translated(unflatten(X, %r)))(%s)' % (lam, g, Xc)
-                    pc = '(lambda X: %s.proximal_l1_l2(X, %r, unflatten(X, %r)))(X)' % (P, lam, g)
-                else:
-                    fc = ('(lambda X: S.FunctionalQuadraticPerturb(S.FunctionalRightScalarMult('
-                          'S.IndicatorGroupL1UnitBall(X, 2), %r), linear_term=unflatten(X, %r)))(%s)' % (1.0 / lam, g, Xc))
-                    pc = '(lambda X: %s.proximal_convex_conj_l1_l2(X, %r, unflatten(X, %r)))(X)' % (P, lam, g)
+                garg = 'None' if nog else 'unflatten(X, %r)' % (g,)
+                tr = (lambda f: f) if nog else (lambda f: '(%s).translated(unflatten(X, %r))' % (f, g))
+                lt = 'None' if nog else 'unflatten(X, %r)' % (g,)
+            if kind == 'l1':
+                fc = '(lambda X: %s)(%s)' % (tr('%r * S.L1Norm(X)' % lam), Xc)
+                pc = '(lambda X: %s.proximal_l1(X, %r, %s))(X)' % (P, lam, garg)
+            elif kind == 'l2':
+                fc = '(lambda X: %s)(%s)' % (tr('%r * S.L2Norm(X)' % lam), Xc)
+                pc = '(lambda X: %s.proximal_l2(X, %r, %s))(X)' % (P, lam, garg)
+            elif kind == 'l2sq':
+                fc = '(lambda X: %s)(%s)' % (tr('%r * S.L2NormSquared(X)' % lam), Xc)
+                pc = '(lambda X: %s.proximal_l2_squared(X, %r, %s))(X)' % (P, lam, garg)
+            elif kind == 'ccl1':
+                fc = ('(lambda X: S.FunctionalQuadraticPerturb(S.IndicatorBox(X, %r, %r), linear_term=%s))(%s)'
+                      % (-lam, lam, lt, Xc))
+                pc = '(lambda X: %s.proximal_convex_conj_l1(X, %r, %s))(X)' % (P, lam, garg)
+            elif kind == 'ccl2':
+                fc = ('(lambda X: S.FunctionalQuadraticPerturb(S.FunctionalRightScalarMult(S.IndicatorLpUnitBall(X, 2), %r), '
+                      'linear_term=%s))(%s)' % (1.0 / lam, lt, Xc))
+                pc = '(lambda X: %s.proximal_convex_conj_l2(X, %r, %s))(X)' % (P, lam, garg)
+            elif kind == 'ccl2sq':
+                fc = ('(lambda X: S.FunctionalQuadraticPerturb(%r * S.L2NormSquared(X), linear_term=%s))(%s)'
+                      % (0.25 / lam, lt, Xc))
+                pc = '(lambda X: %s.proximal_convex_conj_l2_squared(X, %r, %s))(X)' % (P, lam, garg)
+            elif kind == 'l1l2':
+                fc = '(lambda X: %s)(%s)' % (tr('%r * S.GroupL1Norm(X, 2)' % lam), Xc)
+                pc = '(lambda X: %s.proximal_l1_l2(X, %r, %s))(X)' % (P, lam, garg)
+            elif kind == 'ccl1l2':
+                fc = ('(lambda X: S.FunctionalQuadraticPerturb(S.FunctionalRightScalarMult('
+                      'S.IndicatorGroupL1UnitBall(X, 2), %r), linear_term=%s))(%s)' % (1.0 / lam, lt, Xc))
+                pc = '(lambda X: %s.proximal_convex_conj_l1_l2(X, %r, %s))(X)' % (P, lam, garg)
             elif kind == 'huber':
                 gam = rng.choice([0.5, 1.0, 2.0])
                 fc = 'S.Huber(%s, %r)' % (Xc, gam)
